@@ -13,7 +13,7 @@ import random
 
 PROPERTY = "C15"
 TIERS = {
-    "quick": dict(seeds=19200, soft_s=150, hard_s=420, per_seed_s=120, init_s=300),
+    "quick": dict(seeds=14400, soft_s=150, hard_s=420, per_seed_s=120, init_s=300),
     "thorough": dict(seeds=640000, soft_s=1500, hard_s=2400, per_seed_s=120, init_s=300),
 }
 RULE = ("one evaluation = one compress -> select -> decompress round trip on generated tables: 1-4 Einsums x "
